@@ -246,6 +246,27 @@ theorem perfectMat_nulls_range [CommRing K] (T : Vector (Vector K k) n) (Tinv : 
   rw [toFn_perfectMat, toFn_onesVec, toFn_zeroVec, toFn_matVec]
   exact perfectMatF_range _ _ ((leftInv_iff T Tinv).1 h) (toFn b)
 
+/-- **Partial suppression** (user-supplied `coeffs`, [Guyon2006]): when `T⁺ T = I` the `l`-th
+orthogonalised mode is attenuated by exactly `1 − coeffs_l`, for every combination `T b` of them:
+`P_c (T b) = T ((1 − c) ∘ b)`.  (`coeffs = 1`: nulled — `perfectMat_nulls_range`; `coeffs = 0`: passed.)
+Tied by harness part B, cases with user coefficients: op `papply` on the columns of the real
+`transformation` with the real `coeffs`. -/
+theorem perfectMat_partial_suppression [CommRing K] (T : Vector (Vector K k) n) (Tinv : Vector (Vector K n) k)
+    (h : LeftInv T Tinv) (c b : Vector K k) :
+    perfectMat T Tinv c (matVec T b) = matVec T (Vector.ofFn fun j => (1 - c[j]) * b[j]) := by
+  apply toFn_injective
+  rw [toFn_perfectMat, toFn_matVec, toFn_matVec, toFn_ofFn]
+  exact perfectMatF_range_coeffs _ _ ((leftInv_iff T Tinv).1 h) (toFn c) (toFn b)
+
+/-- **The matrix the object reports for itself is the operator `forward` applies**:
+`get_transformation_matrix_forward() · E = forward(E)` for any matrices and coefficients
+(`perfectMatrix` = `np.eye(n) − T.dot(coeffs[:, None] * T⁺)`, the expression after D109; op `pmatrix`
+compares it entry by entry with what the real method returns). -/
+theorem perfectMatrix_apply [CommRing K] (T : Vector (Vector K k) n) (Tinv : Vector (Vector K n) k)
+    (c : Vector K k) (E : Vector K n) :
+    matVec (perfectMatrix T Tinv c) E = perfectMat T Tinv c E :=
+  toFn_injective (toFn_matVec_perfectMatrix T Tinv c E)
+
 /-- **Idempotent** when `T⁺ T = I` and `coeffs = 1` (any commutative ring: no orthogonality is
 needed, so this covers complex apertures directly). -/
 theorem perfectMat_idempotent [CommRing K] (T : Vector (Vector K k) n) (Tinv : Vector (Vector K n) k)
